@@ -116,15 +116,13 @@ func (c *cacheParams) commit(ctx sdk.Context, k common.KeeperOracle) {
 	block := uint64(ctx.BlockHeight())
 	index, _ := k.GetIndexRecentParams(ctx)
 	i := 0
-	for ; i < len(index.Index); i++ {
-		b := index.Index[i]
-		if b >= block-uint64(common.MaxNonce) {
+	// the latest params written before the replay window are the ones in force at its start,
+	// so an entry is removed only when the next one is older than the window as well
+	for ; i+1 < len(index.Index); i++ {
+		if index.Index[i+1] >= block-uint64(common.MaxNonce) {
 			break
 		}
-		k.RemoveRecentParams(ctx, b)
-	}
-	if i > 0 && i == len(index.Index) {
-		i--
+		k.RemoveRecentParams(ctx, index.Index[i])
 	}
 	index.Index = index.Index[i:]
 	// remove and append for KVStore
